@@ -241,9 +241,10 @@ off64_t _GD_Bzip2Seek(struct gd_raw_file_* file, off64_t offset,
 
   offset *= GD_SIZE(data_type);
 
-  if (mode == GD_FILE_WRITE) {
+  if (mode & GD_FILE_WRITE) {
     off64_t remaining = offset - file->pos * GD_SIZE(data_type);
     /* we only get here when we need to pad */
+    memset(ptr->data, 0, GD_BZIP_BUFFER_SIZE);
     while (ptr->base + ptr->end < offset) {
       int n;
       if (remaining > GD_BZIP_BUFFER_SIZE)
